@@ -48,6 +48,7 @@ func (env *c13Env) newSQLite(h *vsched.H) mocrelay.Handler {
 	}
 	db.SetMaxOpenConns(1)
 	env.db = db
+	h.Cleanup(func() { db.Close() }) // also when the execution is aborted: an open :memory: database is never collected
 	env.dbCtx, env.dbStop = context.WithCancel(context.Background())
 	// the bulk-insert goroutine belongs to the constructor, not to a session
 	sh, err := mocsqlite.NewSQLiteHandler(env.dbCtx, db, &mocsqlite.SQLiteHandlerOption{EventBulkInsertNum: 1, EventBulkInsertDur: 0, MaxLimit: mocsqlite.NoLimit})
@@ -156,7 +157,6 @@ func SessionEnd(h *vsched.H) {
 	defer func() {
 		if env.db != nil {
 			env.dbStop()
-			env.db.Close()
 		}
 	}()
 	now := int64(1700000000)
